@@ -130,8 +130,10 @@ class World:
         def cb():
             with self.lock:
                 self.ev.append({"ev": "Finish", "ps": list(ps), "bad": sorted(bad)})
-                futs = [(p, self.futs.pop(p)) for p in ps]
+                futs = [(p, self.futs.pop(p, None)) for p in ps]
             for p, f in futs:
+                if f is None:       # (the element never reached the consumer: the trace says so -- no Deliver event)
+                    continue
                 if p in bad:
                     f.set_exception(ConsumerError("consumer of producer %d failed" % p))
                 else:
